@@ -109,10 +109,10 @@ def post_join_is_left_fold(r):
     """join(x1, ..., xn) equals ((x1 + x2) + ...) + xn"""
     xs = r.old_args
     first = xs[0]
-    if isinstance(first, str) and not hasattr(first, '_s'):
+    if isinstance(first, str):
         acc = r.AnsiString(first)
     else:
-        acc = first
+        acc = first.copy()
     i = 1
     while i < len(xs):
         acc = acc + xs[i]
